@@ -343,3 +343,91 @@ def body_defaulted_field(fsel: int, kind: int, i: int, f: float, s: str, alt: bo
     if want and not ok:
         return 2
     return 0 if ok else -1
+
+
+# ------------------------------------------------------------------ strictness through a generic dataclass nested in typing constructs
+
+from hlib import lf as _lf
+from pane import field
+
+_TS = t.TypeVar('_TS')
+
+
+class GBx(PaneBase, t.Generic[_TS]):
+    value: _TS
+
+
+class GSh(PaneBase, t.Generic[_TS]):
+    """the element type reaches the inner generic dataclass only through List / Optional / Dict / Tuple / Union"""
+    boxes: t.List[GBx[_TS]] = field(default_factory=list)
+    opt: t.Optional[GBx[_TS]] = None
+    m: t.Dict[str, GBx[_TS]] = field(default_factory=dict)
+    tup: t.Optional[t.Tuple[GBx[_TS], int]] = None
+    un: t.Union[None, str, GBx[_TS]] = None
+    direct: t.Optional[GBx[_TS]] = None
+
+
+GSH = (GSh[int], GSh[str], GSh[float])
+for _c in GSH:
+    make_converter(_c)
+
+
+@obligation(pre="0 <= gi <= 2 and 0 <= ctx <= 5 and 0 <= k <= 5", witnesses=(0, -1), timeout=200)
+def body_nested_generic_strict(gi: int, ctx: int, k: int, i: int, s: str) -> int:
+    """GSh[int] / GSh[str] / GSh[float]: the value inside the nested GBx is accepted only if its kind is allowed for the type argument, in every embedding context (and through the constructor)"""
+    if len(s) > 2:
+        raise OutOfBound()
+    cls = GSH[0] if gi == 0 else (GSH[1] if gi == 1 else GSH[2])
+    v = _lf(k, i, s, gi == 2)
+    # the allowed-relation of the property: int <- bool, int; str <- str; float <- bool, int, float
+    if gi == 0:
+        want = k == 1 or k == 2
+    elif gi == 1:
+        want = k == 4
+    else:
+        want = k == 1 or k == 2 or k == 3
+        if k == 2:
+            try:
+                float(v)
+            except OverflowError:
+                want = False
+    box = {'value': v}
+    if ctx == 0:
+        d = {'boxes': [{'value': v}]}
+    elif ctx == 1:
+        d = {'opt': box}
+    elif ctx == 2:
+        d = {'m': {'k': box}}
+    elif ctx == 3:
+        d = {'tup': [box, 1]}
+    elif ctx == 4:
+        d = {'un': box}
+    else:
+        d = {'direct': box}
+    for use_ctor in (False, True):
+        try:
+            if use_ctor:
+                cls(**d)
+            else:
+                cls.from_data(d)
+            ok = True
+        except ConvertError:
+            ok = False
+        except Exception as e:
+            if crosshair_exc(e):
+                raise
+            return 10
+        if ok and not want:
+            return 1
+        if want and not ok:
+            return 2
+    return 0 if want else -1
+
+
+for _g in range(3):
+    for _c in range(6):
+        for _k in range(6):
+            try:
+                body_nested_generic_strict(_g, _c, _k, 1, 'a')
+            except Exception:
+                pass
